@@ -660,7 +660,10 @@ impl<'a> Runtime<'a> {
                                     Ok(Value::Number(n))
                                 }
                             }
-                            BinaryOp::Eq => Ok(Value::Bool((lv - rv).abs() <= FLOAT_EQ_EPS)),
+                            // `lv == rv` first: the difference of two equal infinities is NaN
+                            BinaryOp::Eq => {
+                                Ok(Value::Bool(lv == rv || (lv - rv).abs() <= FLOAT_EQ_EPS))
+                            }
                             BinaryOp::Gt => Ok(Value::Bool(lv > rv)),
                             BinaryOp::Lt => Ok(Value::Bool(lv < rv)),
                             _ => unreachable!("Semantic analysis guarantees valid number ops"),
